@@ -618,6 +618,7 @@ func (g *Gen) stmt(depth int) []Stmt {
 		b2i(depth == 0 && g.loops == 0 && g.fnLevel == 0) * (f.Errors / 3), // 33 pcall at depth (top level only: quadratic)
 		b2i(deep) * (f.Coroutines / 3), // 34 go-function coroutine body
 		b2i(deep) * (f.Varargs / 3),  // 35 tail calls to vararg functions
+		b2i(depth == 0) * 4,          // 36 operand matrix
 	}
 	switch g.R.Pick(w...) {
 	case 0:
@@ -728,8 +729,10 @@ func (g *Gen) stmt(depth int) []Stmt {
 		return g.pcallAtDepth(d)
 	case 34:
 		return g.goBodyCoroutine(d)
-	default:
+	case 35:
 		return g.tailVararg(d)
+	default:
+		return g.operandMatrix(d)
 	}
 }
 
